@@ -13,6 +13,8 @@ package coroutines
 //@ ensures (res != nil) != (err != nil)
 //@ ensures err == nil ==> res.Kind == t_api.ReadPromise && res.ReadPromise != nil
 //@ ensures err == nil ==> linearizes(res.ReadPromise.Status == seq.read.status(pre_promises(r.ReadPromise.Id)) && post_promises(r.ReadPromise.Id) == p.effective(pre_promises(r.ReadPromise.Id), T) && (res.ReadPromise.Status == t_api.StatusOK ==> res.ReadPromise.Promise != nil && pview(res.ReadPromise.Promise) == pview.row(p.effective(pre_promises(r.ReadPromise.Id), T))))
+//@ ensures [C15 C13] err == nil ==> res != nil && res.Kind == t_api.ReadPromise && res.ReadPromise != nil && kstatus.ReadPromise(res.ReadPromise.Status)
+//@ ensures [C15 C13] err != nil ==> kerr.platform(errcode(err))
 
 //@ func CompletePromise
 //@ props C01 C02 C03 C04 C20
@@ -24,6 +26,8 @@ package coroutines
 //@ ensures (res != nil) != (err != nil)
 //@ ensures err == nil ==> res.Kind == t_api.CompletePromise && res.CompletePromise != nil
 //@ ensures err == nil ==> linearizes(res.CompletePromise.Status == seq.complete.status(pre_promises(r.CompletePromise.Id), T, r.CompletePromise.State, opt(r.CompletePromise.IdempotencyKey), r.CompletePromise.Strict) && post_promises(r.CompletePromise.Id) == seq.complete.row(pre_promises(r.CompletePromise.Id), T, r.CompletePromise.State, r.CompletePromise.Value.Headers, r.CompletePromise.Value.Data, opt(r.CompletePromise.IdempotencyKey)) && (res.CompletePromise.Status != t_api.StatusPromiseNotFound ==> res.CompletePromise.Promise != nil && pview(res.CompletePromise.Promise) == pview.row(post_promises(r.CompletePromise.Id))))
+//@ ensures [C15 C13] err == nil ==> res != nil && res.Kind == t_api.CompletePromise && res.CompletePromise != nil && kstatus.CompletePromise(res.CompletePromise.Status)
+//@ ensures [C15 C13] err != nil ==> kerr.platform(errcode(err))
 
 //@ macro create_post(status, shown, req) linearizes((!pre_promises(req.Id).present ==> status == t_api.StatusCreated && seq.create.row.ok(post_promises(req.Id), req.Id, req.Param.Headers, req.Param.Data, req.Timeout, opt(req.IdempotencyKey), req.Tags, T)) && (pre_promises(req.Id).present ==> status == seq.create.status.exists(pre_promises(req.Id), T, opt(req.IdempotencyKey), req.Strict) && post_promises(req.Id) == p.effective(pre_promises(req.Id), T)) && shown != nil && pview(shown) == pview.row(post_promises(req.Id)))
 
@@ -41,6 +45,9 @@ package coroutines
 //@ ensures err == nil ==> res.Kind == r.Kind
 //@ ensures err == nil && r.Kind == t_api.CreatePromise ==> res.CreatePromise != nil && create_post(res.CreatePromise.Status, res.CreatePromise.Promise, createPromiseReq)
 //@ ensures err == nil && r.Kind == t_api.CreatePromiseAndTask ==> res.CreatePromiseAndTask != nil && create_post(res.CreatePromiseAndTask.Status, res.CreatePromiseAndTask.Promise, createPromiseReq)
+//@ ensures [C15 C13] err != nil ==> kerr.create(errcode(err))
+//@ ensures [C15 C13] err == nil && r.Kind == t_api.CreatePromise ==> kstatus.CreatePromise(res.CreatePromise.Status)
+//@ ensures [C15 C13] err == nil && r.Kind == t_api.CreatePromiseAndTask ==> kstatus.CreatePromise(res.CreatePromiseAndTask.Status)
 
 //@ func CreatePromiseAndTask
 //@ props C07 C08
@@ -55,6 +62,8 @@ package coroutines
 //@ requires r.CreatePromiseAndTask.Promise.Id == r.CreatePromiseAndTask.Task.PromiseId && r.CreatePromiseAndTask.Promise.Timeout == r.CreatePromiseAndTask.Task.Timeout
 //@ ensures (res != nil) != (err != nil)
 //@ ensures err == nil ==> res.Kind == t_api.CreatePromiseAndTask && res.CreatePromiseAndTask != nil
+//@ ensures [C15 C13] err == nil ==> res != nil && res.Kind == t_api.CreatePromiseAndTask && res.CreatePromiseAndTask != nil && kstatus.CreatePromise(res.CreatePromiseAndTask.Status)
+//@ ensures [C15 C13] err != nil ==> kerr.create(errcode(err))
 
 //@ func CreatePromise
 //@ props C01 C02 C03 C04 C08 C20
@@ -64,6 +73,8 @@ package coroutines
 //@ requires c != nil && r != nil && r.CreatePromise != nil && r.Kind == t_api.CreatePromise
 //@ ensures (res != nil) != (err != nil)
 //@ ensures err == nil ==> res.Kind == t_api.CreatePromise && res.CreatePromise != nil && create_post(res.CreatePromise.Status, res.CreatePromise.Promise, r.CreatePromise)
+//@ ensures [C15 C13] err == nil ==> res != nil && res.Kind == t_api.CreatePromise && res.CreatePromise != nil && kstatus.CreatePromise(res.CreatePromise.Status)
+//@ ensures [C15 C13] err != nil ==> kerr.create(errcode(err))
 
 //@ func AcquireLock
 //@ props C02 C09
@@ -74,6 +85,8 @@ package coroutines
 //@ ensures (res != nil) != (err != nil)
 //@ ensures err == nil ==> res.Kind == t_api.AcquireLock && res.AcquireLock != nil
 //@ ensures err == nil ==> linearizes(seq.acquire(pre_locks(r.AcquireLock.ResourceId), post_locks(r.AcquireLock.ResourceId), T, res.AcquireLock.Status, r.AcquireLock.ResourceId, r.AcquireLock.ExecutionId, r.AcquireLock.ProcessId, r.AcquireLock.Ttl) && (res.AcquireLock.Status == t_api.StatusCreated ==> res.AcquireLock.Lock != nil && lview(res.AcquireLock.Lock) == lview.row(post_locks(r.AcquireLock.ResourceId))))
+//@ ensures [C15 C13] err == nil ==> res != nil && res.Kind == t_api.AcquireLock && res.AcquireLock != nil && kstatus.AcquireLock(res.AcquireLock.Status)
+//@ ensures [C15 C13] err != nil ==> kerr.platform(errcode(err))
 
 //@ func ReleaseLock
 //@ props C02 C09
@@ -83,6 +96,8 @@ package coroutines
 //@ ensures (res != nil) != (err != nil)
 //@ ensures err == nil ==> res.Kind == t_api.ReleaseLock && res.ReleaseLock != nil
 //@ ensures err == nil ==> linearizes(seq.release(pre_locks(r.ReleaseLock.ResourceId), post_locks(r.ReleaseLock.ResourceId), res.ReleaseLock.Status, r.ReleaseLock.ExecutionId))
+//@ ensures [C15 C13] err == nil ==> res != nil && res.Kind == t_api.ReleaseLock && res.ReleaseLock != nil && kstatus.ReleaseLock(res.ReleaseLock.Status)
+//@ ensures [C15 C13] err != nil ==> kerr.platform(errcode(err))
 
 //@ func HeartbeatLocks
 //@ props C02 C09
@@ -92,6 +107,8 @@ package coroutines
 //@ ensures (res != nil) != (err != nil)
 //@ ensures err == nil ==> res.Kind == t_api.HeartbeatLocks && res.HeartbeatLocks != nil && res.HeartbeatLocks.Status == t_api.StatusOK
 //@ ensures err == nil ==> linearizes(post_locks(anykey("hb")) == spec.HeartbeatLocks.locks(pre_locks(anykey("hb")), anykey("hb"), r.HeartbeatLocks.ProcessId, T) && res.HeartbeatLocks.LocksAffected == count_pre("locks", "lock.ofproc", r.HeartbeatLocks.ProcessId))
+//@ ensures [C15 C13] err == nil ==> res != nil && res.Kind == t_api.HeartbeatLocks && res.HeartbeatLocks != nil && kstatus.HeartbeatLocks(res.HeartbeatLocks.Status)
+//@ ensures [C15 C13] err != nil ==> kerr.platform(errcode(err))
 
 //@ func ClaimTask
 //@ props C02 C07 C20
@@ -102,6 +119,8 @@ package coroutines
 //@ ensures (res != nil) != (err != nil)
 //@ ensures err == nil ==> res.Kind == t_api.ClaimTask && res.ClaimTask != nil
 //@ ensures err == nil ==> linearizes(seq.claim(pre_tasks(r.ClaimTask.Id), post_tasks(r.ClaimTask.Id), T, res.ClaimTask.Status, r.ClaimTask.Counter, r.ClaimTask.ProcessId, r.ClaimTask.Ttl) && (res.ClaimTask.Status == t_api.StatusCreated ==> res.ClaimTask.Task != nil && tview(res.ClaimTask.Task) == tview.row(post_tasks(r.ClaimTask.Id))))
+//@ ensures [C15 C13] err == nil ==> res != nil && res.Kind == t_api.ClaimTask && res.ClaimTask != nil && kstatus.ClaimTask(res.ClaimTask.Status)
+//@ ensures [C15 C13] err != nil ==> kerr.platform(errcode(err))
 
 //@ func CompleteTask
 //@ props C02 C07
@@ -111,6 +130,8 @@ package coroutines
 //@ ensures (res != nil) != (err != nil)
 //@ ensures err == nil ==> res.Kind == t_api.CompleteTask && res.CompleteTask != nil
 //@ ensures err == nil ==> linearizes(seq.completetask(pre_tasks(r.CompleteTask.Id), post_tasks(r.CompleteTask.Id), T, res.CompleteTask.Status, r.CompleteTask.Counter) && (res.CompleteTask.Status == t_api.StatusCreated || res.CompleteTask.Status == t_api.StatusOK ==> res.CompleteTask.Task != nil && tview(res.CompleteTask.Task) == tview.row(post_tasks(r.CompleteTask.Id))))
+//@ ensures [C15 C13] err == nil ==> res != nil && res.Kind == t_api.CompleteTask && res.CompleteTask != nil && kstatus.CompleteTask(res.CompleteTask.Status)
+//@ ensures [C15 C13] err != nil ==> kerr.platform(errcode(err))
 
 //@ func HeartbeatTasks
 //@ props C02 C07
@@ -120,6 +141,8 @@ package coroutines
 //@ ensures (res != nil) != (err != nil)
 //@ ensures err == nil ==> res.Kind == t_api.HeartbeatTasks && res.HeartbeatTasks != nil && res.HeartbeatTasks.Status == t_api.StatusOK
 //@ ensures err == nil ==> linearizes(post_tasks(anykey("hb")) == spec.HeartbeatTasks.tasks(pre_tasks(anykey("hb")), anykey("hb"), r.HeartbeatTasks.ProcessId, T) && res.HeartbeatTasks.TasksAffected == count_pre("tasks", "task.heldby", r.HeartbeatTasks.ProcessId))
+//@ ensures [C15 C13] err == nil ==> res != nil && res.Kind == t_api.HeartbeatTasks && res.HeartbeatTasks != nil && kstatus.HeartbeatTasks(res.HeartbeatTasks.Status)
+//@ ensures [C15 C13] err != nil ==> kerr.platform(errcode(err))
 
 //@ func ReadSchedule
 //@ props C02 C10 C20
@@ -129,6 +152,8 @@ package coroutines
 //@ ensures (res != nil) != (err != nil)
 //@ ensures err == nil ==> res.Kind == t_api.ReadSchedule && res.ReadSchedule != nil
 //@ ensures err == nil ==> linearizes(post_schedules(r.ReadSchedule.Id) == pre_schedules(r.ReadSchedule.Id) && (!pre_schedules(r.ReadSchedule.Id).present ==> res.ReadSchedule.Status == t_api.StatusScheduleNotFound) && (pre_schedules(r.ReadSchedule.Id).present ==> res.ReadSchedule.Status == t_api.StatusOK && res.ReadSchedule.Schedule != nil && sview(res.ReadSchedule.Schedule) == sview.row(pre_schedules(r.ReadSchedule.Id))))
+//@ ensures [C15 C13] err == nil ==> res != nil && res.Kind == t_api.ReadSchedule && res.ReadSchedule != nil && kstatus.ReadSchedule(res.ReadSchedule.Status)
+//@ ensures [C15 C13] err != nil ==> kerr.platform(errcode(err))
 
 //@ func DeleteSchedule
 //@ props C02 C10
@@ -138,6 +163,8 @@ package coroutines
 //@ ensures (res != nil) != (err != nil)
 //@ ensures err == nil ==> res.Kind == t_api.DeleteSchedule && res.DeleteSchedule != nil
 //@ ensures err == nil ==> linearizes(!post_schedules(r.DeleteSchedule.Id).present && (pre_schedules(r.DeleteSchedule.Id).present ==> res.DeleteSchedule.Status == t_api.StatusNoContent) && (!pre_schedules(r.DeleteSchedule.Id).present ==> res.DeleteSchedule.Status == t_api.StatusScheduleNotFound))
+//@ ensures [C15 C13] err == nil ==> res != nil && res.Kind == t_api.DeleteSchedule && res.DeleteSchedule != nil && kstatus.DeleteSchedule(res.DeleteSchedule.Status)
+//@ ensures [C15 C13] err != nil ==> kerr.platform(errcode(err))
 
 //@ macro sreq() r.CreateSchedule
 //@ func CreateSchedule
@@ -148,6 +175,8 @@ package coroutines
 //@ ensures (res != nil) != (err != nil)
 //@ ensures err == nil ==> res.Kind == t_api.CreateSchedule && res.CreateSchedule != nil && res.CreateSchedule.Schedule != nil
 //@ ensures err == nil ==> linearizes((pre_schedules(sreq().Id).present ==> post_schedules(sreq().Id) == pre_schedules(sreq().Id) && res.CreateSchedule.Status == seq.createschedule.status.exists(pre_schedules(sreq().Id), opt(sreq().IdempotencyKey))) && (!pre_schedules(sreq().Id).present ==> res.CreateSchedule.Status == t_api.StatusCreated && post_schedules(sreq().Id).present && sview.row(post_schedules(sreq().Id)) == mk.sview(sreq().Id, sreq().Description, sreq().Cron, sreq().Tags, sreq().PromiseId, sreq().PromiseTimeout, sreq().PromiseParam.Headers, sreq().PromiseParam.Data, sreq().PromiseTags, inone, cronnext(sreq().Cron, T), opt(sreq().IdempotencyKey), T)) && sview(res.CreateSchedule.Schedule) == sview.row(post_schedules(sreq().Id)))
+//@ ensures [C15 C13] err == nil ==> res != nil && res.Kind == t_api.CreateSchedule && res.CreateSchedule != nil && kstatus.CreateSchedule(res.CreateSchedule.Status)
+//@ ensures [C15 C13] err != nil ==> kerr.platform(errcode(err))
 
 //@ macro cb_post(status, shown, cb, cbid, pid, root, recv, mtype, mroot, mleaf, timeout) linearizes((!pre_promises(pid).present ==> status == t_api.StatusPromiseNotFound && post_callbacks(cbid) == pre_callbacks(cbid)) && (pre_promises(pid).present ==> (status == t_api.StatusOK || status == t_api.StatusCreated) && shown != nil && pview(shown) == pview.row(pre_promises(pid)) && (status == t_api.StatusCreated ==> !pre_callbacks(cbid).present && p.pending(pre_promises(pid)) && cview.row(post_callbacks(cbid)) == mk.cview(cbid, pid, root, recv, mtype, mroot, mleaf, timeout, T)) && (status == t_api.StatusOK ==> post_callbacks(cbid) == pre_callbacks(cbid)) && (p.pending(pre_promises(pid)) ==> post_callbacks(cbid).present)))
 
@@ -163,6 +192,8 @@ package coroutines
 //@ ensures [C02 C05] err == nil && r.CreateCallback.PromiseId != r.CreateCallback.RootPromiseId && res.CreateCallback.Status != t_api.StatusOK ==> cbc_post()
 //@ ensures [C02 C05] err == nil && r.CreateCallback.PromiseId != r.CreateCallback.RootPromiseId && res.CreateCallback.Status == t_api.StatusOK && res.CreateCallback.Promise.State != promise.Pending ==> cbc_post()
 //@ ensures [C02 C05] err == nil && r.CreateCallback.PromiseId != r.CreateCallback.RootPromiseId && res.CreateCallback.Status == t_api.StatusOK && res.CreateCallback.Promise.State == promise.Pending ==> cbc_post()
+//@ ensures [C15 C13] err == nil ==> res != nil && res.Kind == t_api.CreateCallback && res.CreateCallback != nil && kstatus.CreateCallback(res.CreateCallback.Status)
+//@ ensures [C15 C13] err != nil ==> kerr.platform(errcode(err))
 
 //@ func CreateSubscription
 //@ props C02 C05 C20
@@ -175,6 +206,8 @@ package coroutines
 //@ ensures [C02 C05] err == nil && res.CreateSubscription.Status != t_api.StatusOK ==> cbs_post()
 //@ ensures [C02 C05] err == nil && res.CreateSubscription.Status == t_api.StatusOK && res.CreateSubscription.Promise.State != promise.Pending ==> cbs_post()
 //@ ensures [C02 C05] err == nil && res.CreateSubscription.Status == t_api.StatusOK && res.CreateSubscription.Promise.State == promise.Pending ==> cbs_post()
+//@ ensures [C15 C13] err == nil ==> res != nil && res.Kind == t_api.CreateSubscription && res.CreateSubscription != nil && kstatus.CreateSubscription(res.CreateSubscription.Status)
+//@ ensures [C15 C13] err != nil ==> kerr.platform(errcode(err))
 
 //@ func TimeoutLocks$1
 //@ props C09
@@ -250,7 +283,7 @@ package coroutines
 // out and run again); a cursor is present exactly when the store returned a full page and then carries the
 // same filter and the sort id of the last row. K is an arbitrary index into the page.
 //@ func SearchPromises
-//@ props C14
+//@ props C04 C14
 //@ ghostdb coroutine
 //@ nopanic C13
 //@ ghost K int
@@ -266,6 +299,8 @@ package coroutines
 //@ ensures err == nil && 0 <= K && K < len(res.SearchPromises.Promises) ==> res.SearchPromises.Promises[K] != nil
 //@ ensures err == nil && 0 <= K && K < len(res.SearchPromises.Promises) && res.SearchPromises.Promises[K].State == promise.Pending ==> linearizes(T < res.SearchPromises.Promises[K].Timeout)
 //@ ensures err == nil && res.SearchPromises.Cursor != nil ==> res.SearchPromises.Cursor.Next != nil && res.SearchPromises.Cursor.Next.Id == r.SearchPromises.Id && res.SearchPromises.Cursor.Next.Limit == r.SearchPromises.Limit && sameslice(res.SearchPromises.Cursor.Next.States, r.SearchPromises.States) && res.SearchPromises.Cursor.Next.Tags == r.SearchPromises.Tags && res.SearchPromises.Cursor.Next.SortId != nil
+//@ ensures [C15 C13] err == nil ==> res != nil && res.Kind == t_api.SearchPromises && res.SearchPromises != nil && kstatus.SearchPromises(res.SearchPromises.Status)
+//@ ensures [C15 C13] err != nil ==> kerr.platform(errcode(err))
 
 //@ func SearchSchedules
 //@ props C14
@@ -282,3 +317,5 @@ package coroutines
 //@ ensures err == nil ==> len(res.SearchSchedules.Schedules) <= r.SearchSchedules.Limit
 //@ ensures err == nil && 0 <= K && K < len(res.SearchSchedules.Schedules) ==> res.SearchSchedules.Schedules[K] != nil
 //@ ensures err == nil && res.SearchSchedules.Cursor != nil ==> res.SearchSchedules.Cursor.Next != nil && res.SearchSchedules.Cursor.Next.Id == r.SearchSchedules.Id && res.SearchSchedules.Cursor.Next.Limit == r.SearchSchedules.Limit && res.SearchSchedules.Cursor.Next.Tags == r.SearchSchedules.Tags && res.SearchSchedules.Cursor.Next.SortId != nil
+//@ ensures [C15 C13] err == nil ==> res != nil && res.Kind == t_api.SearchSchedules && res.SearchSchedules != nil && kstatus.SearchSchedules(res.SearchSchedules.Status)
+//@ ensures [C15 C13] err != nil ==> kerr.platform(errcode(err))
